@@ -149,6 +149,22 @@ def cases(block):
         for cls in classes:
             for a, b in itertools.permutations(range(len(V)), 2):
                 yield {"sequence": [seq_probe(V[a], ph, cls), seq_probe(V[b], ph, cls)]}
+            if block["family"] == "cart":
+                # the SAME droplet (reaching across the low boundary) on boxes that differ only in their periodicity, every ordered pair of masks
+                for dim_ in ((1, 2) if cls == "PerturbedDroplet2D" else (1, 2, 3)):
+                    if cls == "PerturbedDroplet2D" and dim_ != 2:
+                        continue
+                    shape, dx, org = CART[dim_][0]
+                    masks = list(itertools.product((False, True), repeat=dim_))
+                    for ma, mb in itertools.permutations(masks, 2):
+                        pr = []
+                        for m in (ma, mb):
+                            g_ = cart(shape, m, dx, org)
+                            sp = seq_probe(g_, ph, cls)
+                            sp["centre"] = [o + (0.3 + ph) * d for o, d in zip(org, dx)]
+                            sp["label"] = "near-low-boundary"
+                            pr.append(sp)
+                        yield {"sequence": pr}
             # the caller keeps ONE grid object and renders several droplets on it
             for gv in V:
                 yield {"sequence": [dict(seq_probe(gv, ph + 0.05 * i, cls), share_grid=True) for i in range(4)]}
